@@ -8,6 +8,7 @@ package optable
 
 import (
 	"fmt"
+	"math/big"
 	"reflect"
 	"sort"
 	"unsafe"
@@ -34,6 +35,8 @@ type Snap struct {
 	path   []string
 	Found  string
 }
+
+var bigFloatType = reflect.TypeOf(big.Float{})
 
 type seenKey struct {
 	p uintptr
@@ -213,6 +216,22 @@ func (s *Snap) walk(v reflect.Value) {
 		s.elems(v)
 	case reflect.Struct:
 		t := v.Type()
+		if !s.WithPtr && t == bigFloatType && v.CanAddr() {
+			// value mode: a big.Float is compared as the number it denotes (precision + exact value); its
+			// mantissa words are not canonical (a zero keeps the stale words of the previous value)
+			f := (*big.Float)(unsafe.Pointer(v.UnsafeAddr()))
+			txt := f.Text('p', 0)
+			s.u64(uint64(f.Prec()))
+			s.u64(uint64(len(txt)) | 2<<40)
+			s.Buf = append(s.Buf, txt...)
+			for len(s.Buf)%8 != 0 {
+				s.Buf = append(s.Buf, 0)
+			}
+			if s.trace && s.Found == "" && len(s.Buf) > s.target {
+				s.Found = pathString(s.path)
+			}
+			return
+		}
 		for i := 0; i < v.NumField(); i++ {
 			s.push("." + t.Field(i).Name)
 			s.walk(v.Field(i))
